@@ -17,6 +17,7 @@ func init() {
 		NotDecided:  "chunk-invariance itself: it follows from the documented contract of bufio.Scanner / bufio.Reader over the whole stream, which is assumed, not analysed; carriage-return handling inside ScanLines.",
 		Assumptions: []string{"bufio.Scanner with the default split function yields exactly the newline-delimited lines of its reader, however Read chops the stream (documented contract)"},
 		Rules: []RuleDef{
+			{ID: "C12.R3", Min: 2, Doc: "handlers are re-entrant: one Handler object serves every connection of a listener, each in its own goroutine; Plain.Handle / Pickle.Handle and the methods they call on the receiver never store into a field of the receiver nor hand out a field's address", Run: c12r3},
 			{ID: "C12.R1", Min: 3, Doc: "line capacity per input: framing API used by Plain.Handle / Amqp.consumeAMQP and its effective maximum token size; size of the UDP buffer", Run: c12r1},
 			{ID: "C12.R2", Min: 4, Doc: "order and once: one Dispatch per obtained line in the same loop iteration, no go statement in the handlers; HandleData/HandleConn are invoked synchronously with the read buffer", Run: c12r2},
 		},
@@ -338,4 +339,65 @@ func c12r2(c *Check) {
 		}
 	})
 	c.Judge(okT, "input.Listener.acceptTcpConn runs the handler on the connection", c.AtFn(atc), "HandleConn(conn) called synchronously in the connection's goroutine", "the connection handler is not run to completion by the connection's goroutine")
+}
+
+// c12r3: the Handler objects of package input are shared by all connections of a listener (each
+// connection runs Handle in its own goroutine): Handle and the methods it calls on the same
+// receiver keep every per-stream state in locals — no store into a field of the receiver, and no
+// field address handed to a callee (p.payload.Reset(), &p.scratch).
+func c12r3(c *Check) {
+	n := 0
+	for _, h := range [][3]string{{"input", "*Plain", "Handle"}, {"input", "*Pickle", "Handle"}} {
+		fn := c.P.Func(h[0], h[1], h[2])
+		for _, f := range workerFuncs(c.P, fn) {
+			// the receiver: first parameter of a method, or the captured receiver of a closure
+			var recvs []ssa.Value
+			if f.Signature.Recv() != nil && len(f.Params) > 0 {
+				recvs = append(recvs, f.Params[0])
+			}
+			for _, fv := range f.FreeVars {
+				if fv.Type().String() == fn.Params[0].Type().String() {
+					recvs = append(recvs, fv)
+				}
+			}
+			bad := ""
+			allInstrs(f, func(in ssa.Instruction) {
+				fa, ok := in.(*ssa.FieldAddr)
+				if !ok {
+					return
+				}
+				isRecv := false
+				for _, r := range recvs {
+					if fa.X == r {
+						isRecv = true
+					}
+				}
+				if !isRecv {
+					return
+				}
+				for _, r := range *fa.Referrers() {
+					switch x := r.(type) {
+					case *ssa.UnOp:
+						// reading the field (the dispatcher interface) is fine
+					case *ssa.Store:
+						if x.Addr == ssa.Value(fa) {
+							bad = "field " + fieldOfAddr(fa).Name() + " of the shared handler is written at " + c.At(x)
+						}
+					case ssa.CallInstruction:
+						if n := calleeName(x.Common()); strings.HasPrefix(n, "sync/atomic.") || strings.HasPrefix(n, "(*sync.") || strings.HasPrefix(n, "(*sync/atomic.") {
+							continue // counters and locks are made for sharing
+						}
+						bad = "the address of field " + fieldOfAddr(fa).Name() + " of the shared handler is handed to " + short(calleeName(x.Common())) + " at " + c.At(r)
+					case *ssa.MakeInterface, *ssa.FieldAddr, *ssa.IndexAddr, *ssa.Slice:
+						bad = "field " + fieldOfAddr(fa).Name() + " of the shared handler is used as per-stream storage at " + c.At(r)
+					}
+				}
+			})
+			n++
+			c.Judge(bad == "", "input handler "+FuncName(f)+" keeps per-stream state in locals", c.AtFn(f), "no field of the receiver is written or lent out", bad+": two connections handled at the same time overwrite each other's partially read data (lines or frames are lost, torn or mixed)")
+		}
+	}
+	if n < 2 {
+		anchorFail("handlers of package input not found")
+	}
 }
